@@ -105,6 +105,32 @@ func (c07) Gen(rng *rand.Rand, tier string, emit func(string)) {
 	} {
 		emit(h)
 	}
+	// whole objects: bases + qualities + pairing_mismatches through ReverseComplement / Subsequence (model: Model/SeqAnnot.lean),
+	// Copy/rc/sub independence for every kind of annotation value (oracle only)
+	for _, h := range []string{
+		"rcw 61636774 01020304 28613a3330292d3e28633a313229:2",
+		"rcw 61636774 - 28613a3330292d3e28633a313229:2,28743a3132292d3e28673a333029:3",
+		"rcw 6163 - 0",
+		"rcw 6163 0102 -",
+		"rcw 61636774 - 28783a3330292d3e286e3a313229:1,286e3a3330292d3e286e3a313229:4", // x and n are both rewritten to n: one key left
+		"rcw 61636774 - 6162:2", // key shorter than 13 bytes: panic
+		"subw 6163677461 0102030405 28613a3330292d3e28633a313229:2,28613a3330292d3e28743a313229:5 1 4 0",
+		"subw 6163677461 0102030405 28613a3330292d3e28633a313229:2,28613a3330292d3e28743a313229:5 3 2 1",
+		"subw 6163677461 - 28613a3330292d3e28633a313229:1 2 4 0", // every position dropped: empty map, left alone by rc
+		"joinrc 6163 - 6767",
+		"joinrc 6163 0102 6767", // receiver with qualities: 4 bases, 2 qualities afterwards, ReverseComplement panics
+		"joinrc 6163 0102 -",
+	} {
+		emit(h)
+	}
+	for k := 0; k < 8; k++ {
+		emit(fmt.Sprintf("annkinds %d", k))
+	}
+	nw := 400
+	if tier == "thorough" {
+		nw = 3000
+	}
+	c07GenWhole(rng, emit, nw)
 	nh := 250
 	if tier == "thorough" {
 		nh = 1500
@@ -432,6 +458,86 @@ func (c07) Exec(c string) (string, []Fail) {
 				return "keep " + strconv.Itoa(pp)
 			}
 			return "drop"
+		case f[0] == "rcw" && len(f) == 4:
+			x, wf, ok := c07MkW(f[1], f[2], f[3])
+			if !ok {
+				return "bad-op"
+			}
+			nin := -1
+			if m, ok := x.GetIntMap("pairing_mismatches"); ok {
+				nin = len(m)
+			}
+			r := x.ReverseComplement(false)
+			if m, ok := r.GetIntMap("pairing_mismatches"); ok && len(m) < nin {
+				stat("rcw:collision")
+				return "collision"
+			}
+			if wf {
+				stat("rcw:wf")
+				// whole-object involution on the real code: bases, qualities, keys and positions
+				if back := r.ReverseComplement(false); c07ShowW(back) != c07ShowW(x) {
+					fail("rcw.involution", "rc(rc(x)) = %s but x = %s", c07ShowW(back), c07ShowW(x))
+				}
+			} else {
+				stat("rcw:ill-formed")
+			}
+			return c07ShowW(r)
+		case f[0] == "subw" && len(f) == 7:
+			x, wf, ok := c07MkW(f[1], f[2], f[3])
+			from, e1 := strconv.Atoi(f[4])
+			to, e2 := strconv.Atoi(f[5])
+			if !ok || e1 != nil || e2 != nil {
+				return "bad-op"
+			}
+			circ := f[6] == "1"
+			sub, err := x.Subsequence(from, to, circ)
+			if err != nil {
+				return "err"
+			}
+			n := x.Len()
+			if wf && from >= 0 && from < n && to > 0 && to <= n && (from < to || circ) {
+				// rc(sub(x)) = sub'(rc(x)) on the whole object (the window wraps on both sides when from >= to)
+				stat(fmt.Sprintf("subw:mirror-circ%v-wrap%v", circ, from >= to))
+				lhs := sub.ReverseComplement(false)
+				rx := x.ReverseComplement(false)
+				rhs, err2 := rx.Subsequence(n-to, n-from, circ)
+				if err2 != nil || c07ShowW(lhs) != c07ShowW(rhs) {
+					got := "error"
+					if err2 == nil {
+						got = c07ShowW(rhs)
+					}
+					fail("subw.rc-mirror", "rc(sub(x,%d,%d)) = %s but sub(rc x,%d,%d) = %s", from, to, c07ShowW(lhs), n-to, n-from, got)
+				}
+				// the source is not changed by any of this
+				if y, _, _ := c07MkW(f[1], f[2], f[3]); c07ShowW(y) != c07ShowW(x) {
+					fail("subw.source-changed", "x = %s after Subsequence/ReverseComplement, was %s", c07ShowW(x), c07ShowW(y))
+				}
+			}
+			return "ok " + c07ShowW(sub)
+		case f[0] == "joinrc" && len(f) == 4:
+			x, _, ok := c07MkW(f[1], f[2], "-")
+			s2, ok2 := unhx(f[3])
+			if !ok || !ok2 {
+				return "bad-op"
+			}
+			y := obiseq.NewBioSequence("y", s2, "")
+			j := x.Join(y, false)
+			if j.HasQualities() && len(j.Qualities()) != j.Len() {
+				stat("joinrc:qualities-short")
+				fail("join.qualities-not-extended", "Join of a sequence with %d qualities and %d bases with %d more bases: %d bases, %d qualities (ReverseComplement panics on it)",
+					len(x.Qualities()), x.Len(), len(s2), j.Len(), len(j.Qualities()))
+			}
+			if c07ShowW(x) != func() string { z, _, _ := c07MkW(f[1], f[2], "-"); return c07ShowW(z) }() {
+				fail("join.source-changed", "Join(_, false) changed its receiver")
+			}
+			r := j.ReverseComplement(false)
+			return c07ShowW(r)
+		case f[0] == "annkinds" && len(f) == 2:
+			k, err := strconv.Atoi(f[1])
+			if err != nil {
+				return "bad-op"
+			}
+			return c07AnnKinds(k, fail)
 		case f[0] == "heap":
 			return c07Heap(f[1:], fail)
 		case f[0] == "mut":
@@ -541,6 +647,311 @@ func (c07) Exec(c string) (string, []Fail) {
 		return "bad-op"
 	})
 	return res, fails
+}
+
+// c07MkW builds the object of a whole-object case: bases, qualities (- = none), pairing_mismatches
+// (- = absent, 0 = empty map, keyhex:pos,...).  wf: qualities as long as the bases, bases over the alphabet,
+// every key at least 13 bytes long with its two symbols (bytes 1 and 9) in the alphabet.
+func c07MkW(shex, qhex, mm string) (*obiseq.BioSequence, bool, bool) {
+	s, ok1 := unhx(shex)
+	q, ok2 := unhx(qhex)
+	if !ok1 || !ok2 {
+		return nil, false, false
+	}
+	x := obiseq.NewBioSequence("x", s, "")
+	wf := c07InAlpha([]byte(strings.ToLower(string(s))))
+	if qhex != "-" {
+		x.SetQualities(q)
+		wf = wf && len(q) == len(s)
+	}
+	if mm != "-" {
+		m := map[string]int{}
+		if mm != "0" {
+			for _, e := range strings.Split(mm, ",") {
+				kv := strings.Split(e, ":")
+				if len(kv) != 2 {
+					return nil, false, false
+				}
+				k, ok := unhx(kv[0])
+				p, err := strconv.Atoi(kv[1])
+				if !ok || err != nil {
+					return nil, false, false
+				}
+				if _, dup := m[string(k)]; dup {
+					return nil, false, false
+				}
+				m[string(k)] = p
+				if len(k) < 13 || !c07InAlpha([]byte{k[1], k[9]}) || (k[1] >= 'A' && k[1] <= 'Z') || (k[9] >= 'A' && k[9] <= 'Z') || p < 1 || p > len(s) {
+					wf = false
+				}
+			}
+		}
+		x.SetAttribute("pairing_mismatches", m)
+	}
+	return x, wf, true
+}
+
+func c07ShowW(o *obiseq.BioSequence) string {
+	q := "-"
+	if o.HasQualities() {
+		q = hx(o.Qualities())
+	}
+	mm := "-"
+	if o.HasAnnotation() {
+		if m, ok := o.GetIntMap("pairing_mismatches"); ok {
+			if len(m) == 0 {
+				mm = "0"
+			} else {
+				// sorted by key (as hex), as the model prints them
+				var ks []string
+				for k := range m {
+					ks = append(ks, hx([]byte(k)))
+				}
+				sort.Strings(ks)
+				var es []string
+				for _, kh := range ks {
+					kb, _ := unhx(kh)
+					es = append(es, kh+":"+strconv.Itoa(m[string(kb)]))
+				}
+				mm = strings.Join(es, ",")
+			}
+		}
+	}
+	return hx(o.Sequence()) + " " + q + " " + mm
+}
+
+// c07AnnKinds: Copy / Subsequence / ReverseComplement must not share ANY annotation value with their source, whatever
+// its kind (oracle only): nested maps, slices, slices of slices, StatsOnValues, maps of interfaces.  Every mutable value
+// of the derived object is edited in place, then the derived object is recycled; the source must print the same.
+func c07AnnKinds(k int, fail c07failf) string {
+	mk := func() *obiseq.BioSequence {
+		x := obiseq.NewBioSequence("x", []byte("acgtacgtac"), "")
+		x.SetQualities([]byte{1, 2, 3, 4, 5, 6, 7, 8, 9, 10})
+		x.SetAttribute("count", 3)
+		x.SetAttribute("name", "n")
+		x.SetAttribute("m_int", map[string]int{"a": 1, "b": 2})
+		x.SetAttribute("m_str", map[string]string{"a": "x"})
+		x.SetAttribute("s_str", []string{"u", "v"})
+		x.SetAttribute("s_int", []int{1, 2, 3})
+		x.SetAttribute("s_byte", []byte("xyz"))
+		x.SetAttribute("ss_int", [][]int{{1, 2}, {3}})
+		x.SetAttribute("m_any", map[string]interface{}{"l": []interface{}{1, "two", map[string]int{"z": 26}}, "m": map[string]interface{}{"deep": []string{"d"}}})
+		x.SetAttribute("stats", obiseq.StatsOnValues{"s1": 4})
+		x.SetAttribute("merged_sample", map[string]int{"s1": 4, "s2": 1})
+		x.SetAttribute("pairing_mismatches", map[string]int{"(a:30)->(c:12)": 2})
+		x.SetAttribute("arr", [3]int{7, 8, 9})
+		x.SetFeatures([]byte("FT   source"))
+		return x
+	}
+	show := func(o *obiseq.BioSequence) string {
+		var keys []string
+		for key := range o.Annotations() {
+			keys = append(keys, key)
+		}
+		sort.Strings(keys)
+		var sb strings.Builder
+		for _, key := range keys {
+			fmt.Fprintf(&sb, "%s=%v;", key, o.Annotations()[key]) // fmt prints maps with sorted keys
+		}
+		return c07View(o) + "|" + sb.String()
+	}
+	var edit func(v interface{})
+	edit = func(v interface{}) {
+		switch t := v.(type) {
+		case map[string]int:
+			for kk := range t {
+				t[kk] += 1000
+			}
+			t["new"] = 1
+		case obiseq.StatsOnValues:
+			for kk := range t {
+				t[kk] += 1000
+			}
+		case map[string]string:
+			for kk := range t {
+				t[kk] = "edited"
+			}
+		case []string:
+			for i := range t {
+				t[i] = "edited"
+			}
+		case []int:
+			for i := range t {
+				t[i] = -1
+			}
+		case []byte:
+			for i := range t {
+				t[i] = '!'
+			}
+		case [][]int:
+			for i := range t {
+				edit(t[i])
+			}
+		case []interface{}:
+			for i := range t {
+				edit(t[i])
+			}
+			if len(t) > 0 {
+				t[0] = "edited"
+			}
+		case map[string]interface{}:
+			for _, vv := range t {
+				edit(vv)
+			}
+			t["new"] = 1
+		}
+	}
+	x := mk()
+	ref := show(x)
+	var d *obiseq.BioSequence
+	what := ""
+	switch k % 4 {
+	case 0:
+		d, what = x.Copy(), "Copy"
+	case 1:
+		d, what = x.ReverseComplement(false), "ReverseComplement(false)"
+	case 2:
+		d, _ = x.Subsequence(2, 7, false)
+		what = "Subsequence(2,7,false)"
+	case 3:
+		d, _ = x.Subsequence(7, 3, true)
+		what = "Subsequence(7,3,true)"
+	}
+	stat("annkinds:" + what)
+	if show(x) != ref {
+		fail("annkinds.source-changed", "%s changed its receiver: %s -> %s", what, ref, show(x))
+	}
+	if k%4 == 0 && show(d) != ref {
+		fail("annkinds.copy-differs", "Copy shows %s, source %s", show(d), ref)
+	}
+	for _, v := range d.Annotations() {
+		edit(v)
+	}
+	if d.Len() > 0 {
+		d.Sequence()[0] = 'n'
+		d.Qualities()[0] = 99
+	}
+	if show(x) != ref {
+		fail("annkinds.shared-annotation", "editing the annotations of the result of %s changed the source: %s -> %s", what, ref, show(x))
+	}
+	if k >= 4 {
+		// the other direction: editing the source does not change the derived object
+		dref := show(d)
+		for _, v := range x.Annotations() {
+			edit(v)
+		}
+		x.Sequence()[1] = 'n'
+		if show(d) != dref {
+			fail("annkinds.shared-annotation", "editing the source changed the result of %s: %s -> %s", what, dref, show(d))
+		}
+		ref = show(x)
+	}
+	d.Recycle()
+	y := obiseq.NewBioSequence("y", []byte("tttttttttt"), "")
+	y.SetAttribute("m_int", map[string]int{"q": 9})
+	if show(x) != ref {
+		fail("annkinds.recycle-changes-source", "recycling the result of %s (and allocating again) changed the source: %s -> %s", what, ref, show(x))
+	}
+	return "ok"
+}
+
+func c07Key(rng *rand.Rand, kind int) []byte {
+	k := []byte(fmt.Sprintf("(%c:%02d)->(%c:%02d)", "acgt-"[rng.Intn(5)], rng.Intn(41), "acgt-"[rng.Intn(5)], rng.Intn(41)))
+	switch kind {
+	case 1: // symbols outside the alphabet: rewritten, not restored by a second rewriting
+		k[1] = "xuAeN?"[rng.Intn(6)]
+	case 2:
+		k[9] = "xuAeN?"[rng.Intn(6)]
+	case 3: // longer than the pattern
+		k = append(k, []byte("tail")[:1+rng.Intn(4)]...)
+	case 4: // exactly 13 bytes of anything printable
+		for i := range k[:13] {
+			k[i] = byte(33 + rng.Intn(90))
+		}
+		k = k[:13]
+	case 5: // too short: rev panics
+		k = k[:rng.Intn(13)]
+	}
+	for i := range k {
+		if k[i] == ':' || k[i] == ',' || k[i] == ' ' {
+			if i != 2 && i != 10 {
+				k[i] = ';'
+			}
+		}
+	}
+	return k
+}
+
+func c07GenMm(rng *rand.Rand, n int, illFormed bool) string {
+	switch rng.Intn(8) {
+	case 0:
+		return "-"
+	case 1:
+		return "0"
+	}
+	seen := map[string]bool{}
+	var es []string
+	for i := 0; i < 1+rng.Intn(4); i++ {
+		kind := 0
+		if illFormed && rng.Intn(2) == 0 {
+			kind = 1 + rng.Intn(5)
+		} else if rng.Intn(4) == 0 {
+			kind = 3
+		}
+		k := c07Key(rng, kind)
+		if seen[string(k)] {
+			continue
+		}
+		seen[string(k)] = true
+		p := 1
+		if n > 0 {
+			p = 1 + rng.Intn(n)
+		}
+		if illFormed && rng.Intn(6) == 0 {
+			p = rng.Intn(2*n+3) - 1
+		}
+		es = append(es, fmt.Sprintf("%s:%d", hx(k), p))
+	}
+	if len(es) == 0 {
+		return "0"
+	}
+	return strings.Join(es, ",")
+}
+
+func c07GenWhole(rng *rand.Rand, emit func(string), n int) {
+	for i := 0; i < n; i++ {
+		l := 1 + rng.Intn(24)
+		s := c07RandSeq(rng, l, false)
+		q := "-"
+		if rng.Intn(2) == 0 {
+			q = c07RandQual(rng, l)
+		}
+		ill := rng.Intn(4) == 0
+		mm := c07GenMm(rng, l, ill)
+		switch rng.Intn(5) {
+		case 0, 1:
+			emit(fmt.Sprintf("rcw %s %s %s", hx(s), q, mm))
+		case 2, 3:
+			f, t := rng.Intn(l), 1+rng.Intn(l)
+			c := rng.Intn(2)
+			switch rng.Intn(6) {
+			case 0:
+				f, t = 0, l
+			case 1:
+				t = f + 1
+			case 2:
+				t = l
+			}
+			emit(fmt.Sprintf("subw %s %s %s %d %d %d", hx(s), q, mm, f, t, c))
+		case 4:
+			// Join on a receiver with qualities does not extend them (known finding C07-join-qualities): a few cases only
+			jq := "-"
+			if rng.Intn(4) == 0 {
+				jq = q
+			}
+			emit(fmt.Sprintf("joinrc %s %s %s", hx(s), jq, hx(c07RandSeq(rng, rng.Intn(6), false))))
+		}
+	}
 }
 
 type c07failf func(sig, format string, a ...any)
